@@ -11,3 +11,4 @@ LEVEL_TEXT = "Deductive proof of Writer.__init__ (fresh checks), write_row (vali
 LEVEL_NOTE = "Trusts the pyvc encoding, z3/cvc5, A-CSV and A-STR (blank repetition) axioms (audited)."
 TECHNIQUE = "contract-based deductive verification (VCs from the ast of the real functions, z3/cvc5) + bounded write/read-back sweep"
 UNITS = [VIO.unit_writer_init(), VIO.unit_writer_write_row(), VIO.unit_padded_fixed_row(), VIO.unit_validate_row(), RW.unit_fixed_row_writer_write_row(), RW.unit_delimited_row_writer_write_row(), VIO.unit_writer_sweep(), RD.unit_as_delimited_keywords(), RD.unit_audit_csv()]
+UNITS += [VIO.unit_writer_write_rows(), VIO.unit_writer_close()]
